@@ -85,6 +85,14 @@ def instantiations(tier, seed):
         out.append({"model": cb, "added": [plain(0), plain(1)], "clash": None})
         out.append({"model": c, "added": [grp(0), grp(0)], "clash": "rule"})
         out.append({"model": c, "added": [F.N("All", plain(3), F.AM(1, V("g4"), V("b"), id="G9"))], "clash": None})
+    # an id-less added rule over exactly the non-default alternatives of a defaulted rule: its generated id coincides with the id of the helper
+    # group the defaulted rule created (which carries the lowered prio tag); add() must resolve that like direct construction does
+    for k, c in enumerate(cfgs):
+        for (node, d, comp) in cfg.defaulted(c)[:2]:
+            for t in ("Any", "Xor"):
+                out.append({"model": F.symbolize(c), "added": [F.N(t, *[V(i) for i in comp])], "clash": None})
+                if k % 3 == 0:
+                    out.append({"model": F.symbolize(c), "added": [plain(0), F.N(t, *[V(i) for i in comp]), plain(2)], "clash": None})
     # a configurator that names a top-level item twice, as plain id strings (errors() complains about it, add() must still agree with
     # direct construction: C18 is not restricted to validated configurators)
     dup = cfg.SC(dict(F.V("x"), str=True), dict(F.V("x"), str=True), dict(F.V("y"), str=True), cfg.cXor(F.V("p"), F.V("q"), id="X", default=["p"]))
